@@ -115,6 +115,7 @@ def main():
         meta["ran"].append("git -C /repo apply patch.diff; ./check <P>; git -C /repo checkout -- .")
     finally:
         sh(["git", "-C", "/repo", "checkout", "--", "."])
+        sh(["git", "-C", "/repo", "clean", "-fdq", "--", "src", "shred-derive", "tests", "examples", "benches"])
         # evidence files were rewritten against the mutated tree: restore the committed ones
         sh("git -C %s checkout -- evidence" % ROOT)
         for f in glob.glob(os.path.join(ROOT, "replays", "*.json")):
